@@ -18,12 +18,21 @@ mod sub;
 mod task_handle;
 mod transport;
 pub mod util;
+#[cfg(zmq_verif)]
+mod verif_hooks;
 mod xpub;
 
 #[doc(hidden)]
 pub mod __async_rt {
     //! DO NOT USE! PRIVATE IMPLEMENTATION, EXPOSED ONLY FOR INTEGRATION TESTS.
     pub use super::async_rt::*;
+}
+
+#[cfg(zmq_verif)]
+#[doc(hidden)]
+pub mod __verif {
+    //! DO NOT USE! Compiled only with `--cfg zmq_verif` for deterministic simulation.
+    pub use super::verif_hooks::*;
 }
 
 pub use crate::dealer::*;
